@@ -154,6 +154,69 @@ fn part1(st: &mut Stats) {
     hooks::set_map_order(0, 0);
     hooks::set_map_order(1, 0);
     hooks::set_map_order(2, 0);
+    // part 1b: the .dig loader walks a hash set of bidirectional names: every order gives the same file
+    {
+        use crate::digxml::{Pin, PinKind, TestDesc};
+        let pins = vec![Pin::new(PinKind::In, "A").bits("4"), Pin::new(PinKind::Out, "Q").bits("4"), Pin::new(PinKind::In, "B"), Pin::new(PinKind::In, "C").bits("2"), Pin::new(PinKind::In, "D")];
+        let tests = vec![
+            TestDesc { label: Some("t".into()), source: "A A_out B B_out C C_out Q\n1 X 0 1 Z 2 3\nZ 5 1 X 1 X X\n".into() },
+            TestDesc { label: Some("u".into()), source: "D_out B_out A\n1 0 3\n".into() },
+        ];
+        let doc = crate::digxml::render(&pins, &tests);
+        hooks::set_map_order(3, 0);
+        let describe = |f: &dtr::dig::File| -> Vec<String> {
+            let mut v: Vec<String> = f.signals.iter().map(|s| format!("{s}")).collect();
+            for i in 0..f.test_cases.len() {
+                match f.load_test(i) {
+                    Ok(tc) => {
+                        let sigs: Vec<Sig> = tc
+                            .signals
+                            .iter()
+                            .map(|s| Sig {
+                                name: s.name.clone(),
+                                bits: s.bits,
+                                kind: match &s.typ {
+                                    dtr::SignalType::Input { default } => Kind::In(V::from(*default)),
+                                    dtr::SignalType::Bidirectional { default } => Kind::Bidir(V::from(*default)),
+                                    _ => Kind::Out,
+                                },
+                            })
+                            .collect();
+                        v.extend(stream(&tc, &sigs));
+                    }
+                    Err(e) => v.push(miette_chain(&e)),
+                }
+            }
+            v
+        };
+        match dtr::dig::File::parse(&doc) {
+            Err(e) => st.violation("part 1b document does not load", 0, miette_chain(&e), || json!({"kind": "dig", "document": doc, "expected": ["loads"], "observed": ["rejected"]})),
+            Ok(base) => {
+                let base_tc: Vec<_> = (0..2).map(|i| base.load_test(i).ok()).collect();
+                let base_desc = describe(&base);
+                let n = hooks::raw_map_order(3).len();
+                st.space("part 1b: orders of the .dig loader's set of bidirectional names", fact(n) as u64);
+                for o in 0..fact(n) {
+                    hooks::set_map_order(3, o);
+                    st.evals += 1;
+                    if o > 0 {
+                        st.nontrivial += 1;
+                        st.witness("non_identity_order_in_the_dig_loader");
+                    }
+                    let f = dtr::dig::File::parse(&doc);
+                    let same = match &f {
+                        Ok(f) => f.signals == base.signals && (0..2).map(|i| f.load_test(i).ok()).collect::<Vec<_>>() == base_tc && describe(f) == base_desc,
+                        Err(_) => false,
+                    };
+                    if !same {
+                        let got = f.as_ref().map(|f| f.signals.iter().map(|s| format!("{s}")).collect::<Vec<_>>()).unwrap_or_default();
+                        st.violation("loading a .dig document depends on hash set order", o as u64, format!("walking the set of bidirectional names in order #{o} gives signals {got:?}\nidentity order: {:?}", base.signals.iter().map(|s| format!("{s}")).collect::<Vec<_>>()), || json!({"kind": "digorder", "document": doc, "order": o, "expected": ["equal to loading under the identity order"], "observed": ["differs"]}));
+                    }
+                }
+                hooks::set_map_order(3, 0);
+            }
+        }
+    }
     // the seam sits where real nondeterminism enters: the raw drain order of the real HashMap varies
     let text = &part1_programs()[0].0;
     let mut raw = std::collections::HashSet::new();
@@ -603,7 +666,7 @@ pub fn run(tier: Tier, seed: u64) -> i32 {
             "interleaving states are merged on the position vector; the thorough tier re-explores without merging".into(),
             "values drawn by random are outside the property; the seed is pinned through hook H1".into(),
         ],
-        required_witnesses: vec!["non_identity_hash_map_order", "binding_error_compared", "real_hash_map_order_varies_under_the_seam", "step_while_another_iterator_is_mid_run", "iterator_restarted_mid_run", "program_reading_outputs_is_not_static", "static_program_compared_with_dynamic_runs"],
+        required_witnesses: vec!["non_identity_hash_map_order", "binding_error_compared", "real_hash_map_order_varies_under_the_seam", "non_identity_order_in_the_dig_loader", "step_while_another_iterator_is_mid_run", "iterator_restarted_mid_run", "program_reading_outputs_is_not_static", "static_program_compared_with_dynamic_runs"],
         exhaustive_note: "all orders, all interleavings (as states and schedule edges), all programs within the bounds".into(),
         e1: true,
     };
@@ -628,6 +691,16 @@ pub fn replay_maporder(j: &serde_json::Value) -> Vec<String> {
         (Ok(_), Ok(_)) => "parsed tests differ".into(),
         _ => "rejected".into(),
     }]
+}
+
+pub fn replay_digorder(j: &serde_json::Value) -> Vec<String> {
+    let doc = j["document"].as_str().unwrap_or("");
+    hooks::set_map_order(3, 0);
+    let base = dtr::dig::File::parse(doc).ok().map(|f| f.signals);
+    hooks::set_map_order(3, j["order"].as_u64().unwrap_or(0) as usize);
+    let f = dtr::dig::File::parse(doc).ok().map(|f| f.signals);
+    hooks::set_map_order(3, 0);
+    vec![if f == base { "equal to loading under the identity order".into() } else { "differs".into() }]
 }
 
 pub fn replay_static(j: &serde_json::Value) -> Vec<String> {
